@@ -39,6 +39,9 @@ func runC19(c *Ctx) {
 	c19Imports(c)
 	c19PrefixLines(c)
 	c19ObjResolution(c)
+	c19Small(c)
+	// an aliased import of the user's file keeps a unique alias (C17/alias-unique)
+	c17AliasUnique(c)
 }
 
 func isCopiedLookup(v ssa.Value) bool {
